@@ -106,6 +106,8 @@ class MinMaxAggregator:
 
         if not all(var in symbol.arguments for var in rest_vars):
             return  # the arguments of the chain predicate can not be recovered from the head atom
+        if len(set(symbol.arguments)) != len(symbol.arguments):
+            return  # a repeated head variable best(P,P,X) is an equality that the chain atom does not express
 
         mapping = [
             (rest_vars + [max_var]).index(arg) if arg in rest_vars + [max_var] else None for arg in symbol.arguments
@@ -651,6 +653,11 @@ class MinMaxAggregator:
             return [stm]
         if any(var.name == varname for cond in rest_cond for var in collect_ast(cond, "Variable")):
             return [stm]  # the value is also used in another literal
+        value = oldmax.atom.symbol.arguments[minmaxpred[2]]
+        if value.ast_type != ASTType.Variable or value.name != varname:
+            return [stm]  # the weight is not the min/max value of the atom
+        if any(var.name == varname for t in term_tuple[1:] for var in collect_ast(t, "Variable")):
+            return [stm]  # the value is also used in the priority or in the tuple
 
         # check if all Variables from old predicate are used in the tuple identifier
         # to make a unique semantics
@@ -739,6 +746,12 @@ class MinMaxAggregator:
         else:
             log.info(f"Cannot optimize {loc2str(term_tuple[0].location)} as the weight is not simple enough.")
             return [elem]
+
+        value = old_max.atom.symbol.arguments[minmaxpred[2]]
+        if value.ast_type != ASTType.Variable or value.name != varname:
+            return [elem]  # the weight is not the min/max value of the atom
+        if any(var.name == varname for t in term_tuple[1:] for var in collect_ast(t, "Variable")):
+            return [elem]  # the value is also used in the tuple
 
         # check if all Variables from old predicate are used in the tuple identifier
         # to make a unique semantics
